@@ -33,6 +33,7 @@ import (
 
 	"github.com/tdewolff/minify/v2"
 	"github.com/tdewolff/minify/v2/css"
+	"github.com/tdewolff/minify/v2/html"
 	"github.com/tdewolff/minify/v2/svg"
 	"github.com/tdewolff/parse/v2"
 	pxml "github.com/tdewolff/parse/v2/xml"
@@ -197,13 +198,14 @@ func c05bSub(m *minify.M, mime, payload []byte, inline bool) (out []byte, presen
 // ---------- cases ----------
 
 type c05bCase struct {
-	src   []byte
-	cfg   c05bCfg
-	key   string
-	toks  []c05bTok
-	out   []byte
-	otoks []c05bTok
-	skip  string // reason why the correspondence is not evaluated
+	src     []byte
+	cfg     c05bCfg
+	key     string
+	toks    []c05bTok
+	out     []byte
+	otoks   []c05bTok
+	skip    string // reason why the correspondence is not evaluated
+	noCount bool   // already counted by the stage
 }
 
 func c05bKey(src []byte, cfg c05bCfg) string {
@@ -347,7 +349,9 @@ func c05bCorr(c *Ctx, st *h.Stage, cases []*c05bCase) error {
 	}
 	for i, cs := range cases {
 		nontriv := !bytes.Equal(cs.src, cs.out)
-		st.Count(cs.key, nontriv)
+		if !cs.noCount {
+			st.Count(cs.key, nontriv)
+		}
 		if cs.skip != "" {
 			st.Tag("corr=skipped(" + cs.skip + ")")
 			continue
@@ -396,7 +400,6 @@ func c05bCorr(c *Ctx, st *h.Stage, cases []*c05bCase) error {
 
 // trigger name → id of the open known finding
 var c05bOpen = map[string]string{}
-
 
 var c05bTextNumRefRe = regexp.MustCompile(`&#0*(60|38);|&#x0*(3[cC]|26);`)
 
@@ -619,6 +622,13 @@ func init() {
 		}
 		st.End()
 
+		// ---- histories: several calls on ONE shared *svg.Minifier ----
+		st = c.R.StartStage("histories", "sequences of 2-4 calls on one shared *svg.Minifier registered in one M together with html.Minify and css.Minify (the cmd/minify setup): direct Minify with params nil / inline=1, m.Minify(image/svg+xml), m.Minify(text/html) of a page that embeds the svg; KeepComments off/on, Precision 0 (and 3 without model); every svg output compared with the same call on a FRESH minifier, with the model and judged by the oracles; the option struct compared before/after every call; non-trivial = an inline call precedes a stand-alone call")
+		if err := c05bHistories(c, st); err != nil {
+			return err
+		}
+		st.End()
+
 		// ---- corpus and benchmark files ----
 		st = c.R.StartStage("corpus", "/repo/tests/svg/corpus/*, /repo/_benchmarks/*.svg x {stand-alone, inline} with css.Minify; same comparison; non-trivial = output differs from input")
 		var files []string
@@ -708,4 +718,118 @@ var c05bFixed = []string{
 	`<svg>]<!--c-->]<![CDATA[>]]>&gt;</svg>`, `<svg>]]<metadata><a/></metadata>&gt; ]]&#62; ]]></svg>`, `<svg><style>a]]</style>&gt;<style>]]&gt; a{}</style>&gt;</svg>`,
 	`<svg><style><![CDATA[a]]]]></style><![CDATA[>]]><text>]</text><text>]</text>&gt;</svg>`, `<svg a="]]"/>&gt;<svg>]]<g/>&gt;</svg>`, `<svg>]]<?pi a]]?>&gt;]]<!--c-->&gt;</svg>`,
 	`<svg data-x="1.0" aria-label="10px" lang="1.0" data="1.0" aria="1.0"/>`,
+}
+
+// ---------- histories ----------
+
+type c05bCall struct {
+	kind string // "direct", "direct-inline", "registry", "html"
+	doc  []byte
+}
+
+func c05bSharedSetup(keepComments bool, precision int) (*minify.M, *svg.Minifier) {
+	m := minify.New()
+	sm := &svg.Minifier{KeepComments: keepComments, Precision: precision}
+	m.AddFunc("text/css", css.Minify)
+	m.AddFunc("text/html", html.Minify)
+	m.Add("image/svg+xml", sm)
+	return m, sm
+}
+
+func c05bDoCall(m *minify.M, sm *svg.Minifier, call c05bCall) (out []byte, err error, crash string) {
+	crash = h.Safely(30*time.Second, func() {
+		var w bytes.Buffer
+		r := bytes.NewReader(append([]byte{}, call.doc...))
+		switch call.kind {
+		case "direct":
+			err = sm.Minify(m, &w, r, nil)
+		case "direct-inline":
+			err = sm.Minify(m, &w, r, map[string]string{"inline": "1"})
+		case "registry":
+			err = m.Minify("image/svg+xml", &w, r)
+		case "html":
+			err = m.Minify("text/html", &w, r)
+		}
+		out = w.Bytes()
+	})
+	return
+}
+
+func c05bHistories(c *Ctx, st *h.Stage) error {
+	n := c.N(400, 6000)
+	if c.Search {
+		n *= 3
+	}
+	fixedDocs := []string{
+		`<svg xmlns="http://www.w3.org/2000/svg" viewBox="0 0 10 10"><path d="M0 0L10 10"/></svg>`,
+		`<svg xmlns="http://www.w3.org/2000/svg" width="10.0px"><!-- c --><g fill="#ff0000"/></svg>`,
+	}
+	var cases []*c05bCase
+	for i := 0; i < n; i++ {
+		r := c.Rng.Fork()
+		keep := r.Chance(30)
+		prec := 0
+		if r.Chance(15) {
+			prec = 3
+		}
+		ncalls := 2 + r.Intn(3)
+		var calls []c05bCall
+		for k := 0; k < ncalls; k++ {
+			var doc string
+			if i < 8 || r.Chance(20) {
+				doc = fixedDocs[r.Intn(len(fixedDocs))]
+			} else {
+				doc = c05bDoc(r, false)
+			}
+			kind := r.Pick([]string{"direct", "direct-inline", "registry", "html", "direct-inline", "registry"})
+			if i < 8 { // the shapes that matter first: inline (directly / through an HTML page), then stand-alone
+				kind = [][]string{{"direct-inline", "direct"}, {"html", "registry"}, {"direct-inline", "registry"}, {"html", "direct"}}[i%4][k%2]
+			}
+			if kind == "html" {
+				doc = "<!doctype html><html><body><p>x</p>" + doc + "</body></html>"
+			}
+			calls = append(calls, c05bCall{kind, []byte(doc)})
+		}
+		m, sm := c05bSharedSetup(keep, prec)
+		hist := ""
+		inlineBefore := false
+		for k, call := range calls {
+			before := *sm
+			out, err, crash := c05bDoCall(m, sm, call)
+			after := *sm
+			fm, fsm := c05bSharedSetup(keep, prec)
+			fout, ferr, fcrash := c05bDoCall(fm, fsm, call)
+			hist += fmt.Sprintf("[%d:%s]", k, call.kind)
+			key := fmt.Sprintf("history %s keepComments=%v precision=%d call %d %s %s", hist, keep, prec, k, call.kind, h.Q(c05bClip(call.doc)))
+			standalone := call.kind == "direct" || call.kind == "registry"
+			st.Count(key, inlineBefore && standalone)
+			st.Tag("call=" + call.kind)
+			if crash != "" || fcrash != "" {
+				c.R.Add(h.Finding{Stage: st.Name, Kind: "crash", What: crash + fcrash, Input: key, Hex: h.Hex(call.doc)})
+				break
+			}
+			if !reflect.DeepEqual(before, after) {
+				c.R.Add(h.Finding{Stage: st.Name, Kind: "diff", What: fmt.Sprintf("svg.Minifier option struct changed by a call: %+v -> %+v", before, after), Input: key, Hex: h.Hex(call.doc)})
+			}
+			if (err == nil) != (ferr == nil) || !bytes.Equal(out, fout) {
+				// same call, same options, other output: judged by the oracle below for svg calls; html pages directly
+				st.Tag("shared!=fresh")
+				if !standalone && call.kind != "direct-inline" {
+					c.R.Add(h.Finding{Stage: st.Name, Kind: "fail", What: "the output of a call depends on the calls made before on the same svg.Minifier (HTML page with embedded svg)", Input: key, Hex: h.Hex(call.doc), Impl: h.Q(c05bClip(out)), Model: h.Q(c05bClip(fout))})
+				} else if prec != 0 {
+					c.R.Add(h.Finding{Stage: st.Name, Kind: "fail", What: "the output of a call depends on the calls made before on the same svg.Minifier", Input: key, Hex: h.Hex(call.doc), Impl: h.Q(c05bClip(out)), Model: h.Q(c05bClip(fout))})
+				}
+			} else {
+				st.Tag("shared=fresh")
+			}
+			if call.kind != "html" && prec == 0 && err == nil {
+				cfg := c05bCfg{inline: call.kind == "direct-inline", keepComments: keep, sub: "css"}
+				cases = append(cases, &c05bCase{src: call.doc, cfg: cfg, key: key, toks: c05bLex(call.doc), out: out, otoks: c05bLex(out), noCount: true})
+			}
+			if call.kind == "direct-inline" || call.kind == "html" {
+				inlineBefore = true
+			}
+		}
+	}
+	return c05bCorr(c, st, cases)
 }
